@@ -335,6 +335,15 @@ fn lm_exp<'a>(p: &[Var<'a>], d: &[&[f64]]) -> Var<'a> {
 fn lm_logistic<'a>(p: &[Var<'a>], d: &[&[f64]]) -> Var<'a> {
     p[0] / ((p[1] * -1.0 * (p[2] * -1.0 + d[0][0])).exp() + 1.0)
 }
+/// logistic written as L·e/(1+e): a trial step that drives the exponent past 709 evaluates to inf/inf = NaN
+fn lm_logistic_ratio<'a>(p: &[Var<'a>], d: &[&[f64]]) -> Var<'a> {
+    let e = (p[1] * (p[2] * -1.0 + d[0][0])).exp();
+    p[0] * e / (e + 1.0)
+}
+/// difference of exponentials: inf − inf = NaN on an overshooting trial step
+fn lm_biexp<'a>(p: &[Var<'a>], d: &[&[f64]]) -> Var<'a> {
+    (p[0] * d[0][0]).exp() - (p[1] * d[0][0]).exp()
+}
 fn lm_cubic4<'a>(p: &[Var<'a>], d: &[&[f64]]) -> Var<'a> {
     let x = d[0][0];
     p[0] + p[1] * x + p[2] * (x * x) + p[3] * (x * x * x)
@@ -385,6 +394,35 @@ fn lm_problems() -> Vec<LmProblem> {
             starts: vec![vec![1.0, 1.0, 0.0], vec![5.0, 0.3, 3.0]],
         });
     }
+    // models whose trial points can evaluate to NaN (overflowing intermediate): a rejected step, never a result
+    let xw: Vec<f64> = (0..40).map(|i| i as f64 * 2.5).collect();
+    v.push(LmProblem {
+        name: "logistic-ratio (NaN-prone)",
+        f: lm_logistic_ratio,
+        linear: false,
+        eval: |p, x| {
+            let e = (p[1] * (x - p[2])).exp();
+            p[0] * e / (1.0 + e)
+        },
+        jac: |p, x| {
+            let e = (p[1] * (x - p[2])).exp();
+            let s = e / (1.0 + e);
+            vec![s, p[0] * (x - p[2]) * s * (1.0 - s), -p[0] * p[1] * s * (1.0 - s)]
+        },
+        xs: xw.clone(),
+        ys: xw.iter().enumerate().map(|(i, x)| 5.0 / (1.0 + (-0.3 * (x - 40.0)).exp()) + 0.1 * noise(i)).collect(),
+        starts: vec![vec![4.0, 3.0, 35.0], vec![6.0, 8.0, 50.0], vec![5.0, 0.3, 40.0], vec![1.0, 12.0, 20.0]],
+    });
+    v.push(LmProblem {
+        name: "biexponential (NaN-prone)",
+        f: lm_biexp,
+        linear: false,
+        eval: |p, x| (p[0] * x).exp() - (p[1] * x).exp(),
+        jac: |p, x| vec![x * (p[0] * x).exp(), -x * (p[1] * x).exp()],
+        xs: xw.iter().map(|x| x * 4.0).collect(),
+        ys: xw.iter().enumerate().map(|(i, x)| (-0.01 * x * 4.0).exp() - (-0.05 * x * 4.0).exp() + 0.01 * noise(i)).collect(),
+        starts: vec![vec![-0.001, -0.2], vec![-0.03, -0.01], vec![-0.02, -0.04], vec![0.001, -0.5]],
+    });
     v
 }
 
@@ -409,6 +447,10 @@ fn lm_suite(run: &Run) {
         let n = p.xs.len();
         let data: Vec<&[f64]> = vec![&p.xs, &p.ys];
         let rss0 = rss(p, th0);
+        if !rss0.is_finite() {
+            run.skip("LM start point with a non-finite residual sum of squares");
+            return;
+        }
         let desc = |k: usize| format!("LM(default) on {} ({} points) from {:?}, budget {}", p.name, n, th0, k);
         // exact least-squares solution for the linear models (rational arithmetic on dyadic data is
         // not available for noise patterns like 0.3, so: normal equations in double-double)
